@@ -313,6 +313,10 @@ RasterStep(k, rec) ==
                     cy == IF reg.pos # <<>> THEN reg.pos[2] \div 1000 ELSE cells \div 2
                     idx == CentreIdx(o, cx, cy)
                 IN Require(idx < Len(o.palette) /\ ColNear(o.palette[idx + 1], Premul(reg.imgBg.rgba)), k, rec, "G06", "frame colour not found at the frame centre (embedded-image options not forwarded to the rasterised document)"))
+          \* C18 through the raster builder: explicit size, gap and position decide where the frame is
+          /\ ((side /\ reg.hasImage /\ reg.pos # <<>> /\ reg.size >= 0 /\ reg.gap >= 0 /\ "win" \notin DOMAIN o /\ RasterColorsJudgeable(reg)
+                   /\ reg.imgBg.rgba # <<>> /\ AllSquare(reg) /\ o.scale_int >= 1) =>
+                Require(RasterFrame(reg, n, rec.vals, o), k, rec, "C18", "raster: the frame is not where the explicit size, gap and position put it"))
           /\ ((side /\ ~reg.hasImage) =>
                 /\ ((RasterColorsJudgeable(reg) /\ (o.w >= 4*cells \/ (AllSquare(reg) /\ o.scale_int >= 1))) =>
                        Require(RasterCentres(reg, n, rec.vals, o), k, rec, "C13", "centre pixel of a cell is not the module / background colour"))
